@@ -30,71 +30,146 @@ def new_report(tier):
        "as a value are outside static reach.")
 
 
-def scanner_escape_table(F):
-    """returns (named: {escape char code point -> decoded code point}, hexlen: {escape char -> digits}, default_target_bb, info)"""
-    f = F.fn(RESOLVE)
-    # the result variable (the char moved into Ok(..)) and the hex-length variable (the usize handed to lookahead / used as the digit count),
-    # identified by use, not by name
-    ret_l, len_l = [], []
-    for bi, si, s in cfg.stmts(f):
-        if s["k"] == "assign" and s["lhs"]["l"] == 0 and not s["lhs"]["p"] and s["rv"]["k"] == "agg" and s["rv"].get("variant") == "Ok":
-            l = is_local(s["rv"]["ops"][0])
-            l = cfg.resolve_copy_chain(f, l) if l is not None else None
-            if l is not None and f.locals[l]["ty"] == "char":
-                ret_l.append(l)
-    for bb, t, ck, fr in f.calls():
-        if ck and ck.endswith("Input::lookahead"):
-            l = is_local(t["args"][1])
-            l = cfg.resolve_copy_chain(f, l) if l is not None else None
-            if l is not None and f.locals[l]["ty"] == "usize" and len(cfg.defs_of_local(f, l)) > 1:
-                len_l.append(l)
-    sw = None
-    for bi, b in enumerate(f.blocks):
-        t = b["term"]
-        if b["cleanup"] or t["k"] != "switch" or t["dty"] != "char" or len(t["vals"]) < 10:
-            continue
-        e = cfg.expr_operand(f, t["discr"], 6)
-        if e[0] == "call" and e[1] == INPUT + "::peek_nth" and e[2][1] == ("const", 1):
-            sw = bi
-    if sw is None:
-        raise facts.MissingAnchor("the match on the escape character was not found in resolve_flow_scalar_escape_sequence")
-    t = f.blocks[sw]["term"]
-    named, hexlen = {}, {}
-    problems = []
-    for v, tg in zip(t["vals"], t["targets"]):
-        # walk the arm until the join (first block with more than one predecessor that is not the arm start)
-        b = tg
-        got = None
-        hops = 0
-        while hops < 6:
-            hops += 1
-            for s in f.blocks[b]["stmts"]:
-                if s["k"] == "assign" and not s["lhs"]["p"]:
-                    c = op_const(s["rv"].get("a", {})) if s["rv"]["k"] == "use" else None
-                    if s["lhs"]["l"] in ret_l:
-                        if c is not None:
-                            cv = const_value(c)
-                            got = ("ret", cv[1] if isinstance(cv, tuple) else cv)
-                        else:
-                            e = cfg.expr_operand(f, s["rv"].get("a", {}), 6) if s["rv"]["k"] == "use" else ("?",)
-                            if e[0] == "call" and e[1] == "std::option::Option::unwrap" and e[2][0][0] == "call" and e[2][0][1] == "std::char::from_u32" \
-                                    and e[2][0][2][0][0] == "const":
-                                got = ("ret", e[2][0][2][0][1])
-                    if s["lhs"]["l"] in len_l and c is not None:
-                        got = ("len", const_value(c))
-            if got:
-                break
-            nxt = f.succs(b)
-            if len(nxt) != 1:
-                break
-            b = nxt[0]
-        if got is None:
-            problems.append(v)
-        elif got[0] == "ret":
-            named[v] = got[1]
+class EscRec:
+    """recogniser for engine E7: symbolic constants along the paths of resolve_flow_scalar_escape_sequence"""
+    transparent = ()
+
+    def __init__(self, F, f):
+        from engine import e7
+        self.F, self.f = F, f
+
+    def _known(self, st, op):
+        c = op_const(op)
+        if c is not None:
+            v = const_value(c)
+            if isinstance(v, tuple) and v[0] == "char":
+                return ("chr", v[1])
+            if isinstance(v, bool):
+                return ("num", int(v))
+            if isinstance(v, int):
+                return ("num", v)
+            return None
+        l = is_local(op)
+        if l is not None:
+            return st.get(("val", l))
+        return None
+
+    def guard(self, bi, st):
+        from engine.e7 import Cons, TRUE, FALSE
+        f = self.f
+        t = f.blocks[bi]["term"]
+        e = cfg.expr_operand(f, t["discr"], 8)
+        if t["dty"] == "char":
+            if e[0] == "call" and e[1] and e[1].endswith("Input::peek_nth") and e[2][1] == ("const", 1):
+                edges = [(Cons([v]), tg) for v, tg in zip(t["vals"], t["targets"])]
+                edges.append((Cons(neg=t["vals"]), t["otherwise"]))
+                return (("esc",), edges)
+        k = self._known(st, t["discr"])
+        if k is not None and k[0] == "num":
+            for v, tg in zip(t["vals"], t["targets"]):
+                if v == k[1]:
+                    return (("known", bi), [(TRUE, tg)])
+            return (("known", bi), [(TRUE, t["otherwise"])])
+        edges = [(Cons([v]), tg) for v, tg in zip(t["vals"], t["targets"])]
+        edges.append((Cons(neg=t["vals"]), t["otherwise"]))
+        return (("opaque", bi), edges)
+
+    def stmt(self, s, st):
+        f = self.f
+        if s["k"] != "assign" or s["lhs"]["p"]:
+            return None
+        l = s["lhs"]["l"]
+        rv = s["rv"]
+        v = None
+        if rv["k"] == "use":
+            v = self._known(st, rv["a"])
+        elif rv["k"] == "bin":
+            a, b = self._known(st, rv["a"]), self._known(st, rv["b"])
+            if a and b and a[0] == b[0] == "num" and rv["op"] in ("Eq", "Ne", "Lt", "Le", "Gt", "Ge"):
+                x, y = a[1], b[1]
+                v = ("num", int({"Eq": x == y, "Ne": x != y, "Lt": x < y, "Le": x <= y, "Gt": x > y, "Ge": x >= y}[rv["op"]]))
+        elif rv["k"] == "agg" and rv.get("variant") == "Ok" and l == 0:
+            k = self._known(st, rv["ops"][0])
+            return ("ret", k[1] if k and k[0] == "chr" else "dynamic")
+        if v is None:
+            st.pop(("val", l), None)
         else:
-            hexlen[v] = got[1]
-    return named, hexlen, t["otherwise"], {"fn": f, "switch_bb": sw, "unresolved_arms": problems}
+            st[("val", l)] = v
+        return None
+
+    def call(self, bi, t, ck, st):
+        f = self.f
+        d = t["dest"]
+        dl = d["l"] if not d["p"] else None
+        if dl is not None:
+            st.pop(("val", dl), None)
+        if ck == "std::char::from_u32":
+            k = self._known(st, t["args"][0])
+            if k and k[0] == "num" and dl is not None:
+                st[("val", dl)] = ("optchr", k[1])
+            return "transparent"
+        if ck == "std::option::Option::unwrap":
+            k = self._known(st, t["args"][0])
+            if k and k[0] == "optchr" and dl is not None:
+                st[("val", dl)] = ("chr", k[1])
+            return "transparent"
+        if ck.endswith("Input::lookahead"):
+            k = self._known(st, t["args"][1])
+            return ("op", ("lookahead", k[1] if k and k[0] == "num" else "dynamic"))
+        if ck.endswith("Scanner::skip_n_non_blank"):
+            k = self._known(st, t["args"][1])
+            return ("op", ("consume", k[1] if k and k[0] == "num" else "dynamic"))
+        if ck.endswith("ScanError::new_str") or ck.endswith("::from_residual"):
+            return ("op", ("err",))
+        return "transparent"
+
+
+def scanner_escape_table(F):
+    """returns (named: {escape char code point -> decoded code point}, hexlen: {escape char -> digits}, default_is_error, info).
+    Path based (engine E7): for every value the character after the backslash can take, what the function returns (a constant character)
+    or how many hex digits it asks for - whatever the shape of the match (one flat match, nested matches, early returns)."""
+    from engine import e7
+    f = F.fn(RESOLVE)
+    rec = EscRec(F, f)
+    ps = [p for p in e7.paths(f, 0, rec, limit=20000) if p["why"] != "unreachable"]
+    listed = set()
+    for p in ps:
+        c = p["guards"].get(("esc",))
+        if c is not None and c.pos is not None:
+            listed |= set(c.pos)
+    if not listed:
+        raise facts.MissingAnchor("the match on the escape character was not found in resolve_flow_scalar_escape_sequence")
+    named, hexlen, problems = {}, {}, []
+
+    def outcome(v):
+        rets, looks, errs, oks = set(), set(), 0, 0
+        for p in e7.matching(ps, {("esc",): v}):
+            if p["why"] not in ("return", "back-edge"):
+                continue
+            if any(o[0] == "err" for o in p["ops"]):
+                errs += 1
+                continue
+            oks += 1
+            for o in p["ops"]:
+                if o[0] == "ret":
+                    rets.add(o[1])
+                if o[0] == "lookahead":
+                    looks.add(o[1])
+        return rets, looks, errs, oks
+    for v in sorted(listed):
+        rets, looks, errs, oks = outcome(v)
+        consts = {r for r in rets if r != "dynamic"}
+        if len(consts) == 1 and "dynamic" not in rets and not looks:
+            named[v] = consts.pop()
+        elif len(looks) == 1 and "dynamic" not in looks and not consts:
+            hexlen[v] = looks.pop()
+        elif oks == 0:
+            continue        # listed but rejected
+        else:
+            problems.append(v)
+    other = next(c for c in range(0x41, 0x7B) if c not in listed)
+    rets, looks, errs, oks = outcome(other)
+    return named, hexlen, (oks == 0 and errs > 0), {"fn": f, "unresolved_arms": problems, "paths": len(ps)}
 
 
 def run(tier):
@@ -120,10 +195,8 @@ def run(tier):
     for esc in sorted(set(hexlen) - set(want_hex)):
         rep.bad("escape-hex-length", "\\%s" % chr(esc), "unexpected hex escape \\%s" % chr(esc), site=f.span)
     rep.floor("named escapes extracted", len(named), 17)
-    # default arm -> Err
-    errs = cfg.err_sink_blocks(f)
-    esc_path = cfg.flag_reach(f, default_bb, cfg.return_blocks(f), avoid=errs) if default_bb not in errs else None
-    rep.check(esc_path is None, "unknown-escape-rejected", "resolve_flow_scalar_escape_sequence", "a character that is not an escape is accepted after a backslash", site=f.span)
+    # any character that is not an escape reaches an error
+    rep.check(default_bb is True, "unknown-escape-rejected", "resolve_flow_scalar_escape_sequence", "a character that is not an escape is accepted after a backslash", site=f.span)
     # hex accumulator shape: value = ((value << 4) + as_hex(c)).0 with c = peek_nth(i), under is_hex(c) (C01 checks the guard)
     okacc = False
     for bi, si, s in cfg.stmts(f):
